@@ -398,7 +398,7 @@ func gen(c *common.Ctx, emit func(...string)) {
 
 	gg := &g{c.Rand}
 	// 2. grammar-directed programs and their mutations
-	n := c.Scale(3000, 150000)
+	n := c.Scale(3000, 400000)
 	maxLen := c.Scale(96, 256)
 	for i := 0; i < n; i++ {
 		d := c.Rand.Intn(5)
@@ -451,7 +451,7 @@ func gen(c *common.Ctx, emit func(...string)) {
 		}
 	}
 	// 3. random strings over a metacharacter-heavy alphabet
-	n = c.Scale(4000, 200000)
+	n = c.Scale(4000, 500000)
 	alpha := append(append([]string{}, meta...), badUTF8...)
 	alpha = append(alpha, "a", "b", "x", " ", " ", "世", "😀", "1")
 	for i := 0; i < n; i++ {
@@ -467,7 +467,7 @@ func gen(c *common.Ctx, emit func(...string)) {
 		}
 	}
 	// 4. uniformly random bytes
-	n = c.Scale(500, 20000)
+	n = c.Scale(500, 50000)
 	for i := 0; i < n; i++ {
 		b := make([]byte, c.Rand.Range(1, 24))
 		for j := range b {
